@@ -57,7 +57,7 @@ W_DEFS = {
 
 contract(Contract(
     target=M + ":wrap_paragraph_lines",
-    props=["C05"],
+    props=["C05", "C11"],       # C11: the breaks inside a sentence are exactly the ones the width forces (maximal lines)
     params={"text": "str", "width": "int", "initial_column": "int", "subsequent_offset": "int",
             "replace_whitespace": "bool", "drop_whitespace": "bool", "splitter": "opt[ref:WordSplitter]",
             "len_fn": "callable", "is_markdown": "bool"},
